@@ -2,7 +2,7 @@
    Only property theorems (closed by [exact]) and Print Assumptions.  Model: Cluster/Model.v (repaired protocol),
    Cluster/CodeModel.v (what the code does at Attach). *)
 From Coq Require Import List Arith Bool.
-From Oxia.Cluster Require Import Model CodeModel Invariants Preservation Witness Witness_code DiskLoss.
+From Oxia.Cluster Require Import Model CodeModel Invariants Preservation Witness Witness_code DiskLoss Completeness.
 Import ListNotations.
 
 (* For every ensemble, every execution of any length built from elections, NewTerm/BecomeLeader/Attach(Truncate)/
@@ -28,6 +28,18 @@ Theorem c01_acked_survive_repaired_protocol : forall E acts w,
   nth_error (nlog (nodes w n)) o = Some e.
 Proof. exact acked_survive. Qed.
 Print Assumptions c01_acked_survive_repaired_protocol.
+
+(* Leader completeness, the reason behind it (repaired protocol, every execution without ensemble change): the log
+   with which the leader of a later term t' starts agrees, up to and including offset o, with the log of the leader of
+   every earlier term t that acknowledged offset o to a client - also for leaders that are no longer alive. *)
+Theorem c01_leader_completeness_repaired_protocol : forall E acts w,
+  NoDup E -> no_swap acts = true -> run (init E) acts = Some w ->
+  forall t' lg', elog w t' = Some lg' ->
+  forall t o Q, In (t, o, Q) (cq w) -> t < t' ->
+  (exists e, In (t, o, e) (cacked w)) ->
+  pfx (S o) lg' (tlog w t).
+Proof. exact leader_completeness_run. Qed.
+Print Assumptions c01_leader_completeness_repaired_protocol.
 
 (* The side condition cannot be dropped: finding O-3b (5 nodes, 6 terms). *)
 Theorem c01_refuted_multi_round_truncate :
